@@ -13,6 +13,7 @@ global size_of usize == 8;
 //@ include units/filterset/part.rs
 //@ include units/streamidx/part.rs
 //@ include units/streamsearch/part.rs
+//@ include units/streamsearch/window.rs
 
 fn main() {}
 } // verus!
